@@ -23,6 +23,19 @@ REPLAYS = os.path.join(OUT, "replays")
 # trials against deliberately changed trees (lib/seedtest.py, lib/refactortest.py) redirect their evidence
 EVID = os.environ.get("VERIF_EVIDENCE_DIR") or os.path.join(ROOT, "evidence")
 TARGET = os.path.join(ROOT, "target")
+# Trials against a scratch copy of the repository (lib/seedtest.py --scratch): CBVERIF_REPO points at it; the
+# harness is copied with its path dependency rewritten and gets its own target directory, so /repo, /verif/harness
+# and /verif/target are not touched.  Registered commands never set this.
+REPO = os.environ.get("CBVERIF_REPO", "/repo")
+if REPO != "/repo":
+    _alt = os.path.join(OUT, "alt")
+    os.makedirs(_alt, exist_ok=True)
+    subprocess.run(["rsync", "-a", "--delete", "--exclude", "target", HARNESS + "/", os.path.join(_alt, "harness") + "/"], check=True)
+    _ct = open(os.path.join(_alt, "harness", "Cargo.toml")).read().replace('path = "/repo"', f'path = "{REPO}"')
+    open(os.path.join(_alt, "harness", "Cargo.toml"), "w").write(_ct)
+    HARNESS = os.path.join(_alt, "harness")
+    TARGET = os.path.join(_alt, "target")
+    REPLAYS = os.path.join(_alt, "replays")
 ENV = dict(os.environ, CARGO_NET_OFFLINE="true", CARGO_TERM_COLOR="never")
 DEFAULT_SEED = 20260926
 
